@@ -399,7 +399,7 @@ def run(R):
               "conventions with the same seed. Non-trivial (a) = some rule has >= 2 tied winners; (b) every instance.")
     R.assumptions = ["random draws are observed by seeding numpy and wrapping numpy.random.choice; no frequency statistics"]
     items = []
-    cnt = 2500 if R.thorough else 130
+    cnt = 2500 if R.thorough else 260
     for t in range(cnt):
         m = R.rng.choice([2, 3, 4, 4, 5, 6, 7, 8])
         n = R.rng.choice([1, 2, 3, 4, 6, 8, 9])
@@ -407,7 +407,7 @@ def run(R):
         items.append({"P": P, "m": m, "vals": consistent_vals(R.rng, P, m), "k": R.rng.randint(1, m), "lam": R.rng.randint(1, m),
                       "seed": R.rng.randrange(10 ** 6)})
     run_vote(R, items)
-    others = [gen_other(R) for _ in range(3000 if R.thorough else 100)]
+    others = [gen_other(R) for _ in range(3000 if R.thorough else 200)]
     cases = [{"items": ch} for ch in chunks(others, 10)]
     results = pmap("c13", "impl_other", cases, deadline=120.0)
     for case, res in zip(cases, results):
